@@ -114,7 +114,14 @@ func (c *ConfigEntry) shouldSkipOperation(args *structs.ConfigEntryRequest) (boo
 	}
 
 	switch args.Op {
-	case structs.ConfigEntryUpsert, structs.ConfigEntryUpsertCAS:
+	case structs.ConfigEntryUpsertCAS:
+		// A check-and-set whose index does not match must be refused by the
+		// state store even if the content happens to equal what is stored.
+		if currentEntry != nil && currentEntry.GetRaftIndex().ModifyIndex != args.Entry.GetRaftIndex().ModifyIndex {
+			return false, nil
+		}
+		return c.shouldSkipUpsertOperation(currentEntry, args.Entry)
+	case structs.ConfigEntryUpsert:
 		return c.shouldSkipUpsertOperation(currentEntry, args.Entry)
 	case structs.ConfigEntryDelete, structs.ConfigEntryDeleteCAS:
 		return (currentEntry == nil), nil
